@@ -59,6 +59,16 @@ func checkC08(p *Prog, l *Ledger) {
 		// scanner's own line, and every consumed newline is counted exactly once (rules of C09)
 		l.AsOnly(map[string]string{"C09/S0-": "C08/S5-position/token-lines/", "C09/S1-": "C08/S5-position/token-lines/", "C09/S4-": "C08/S5-position/token-lines/"}, func() { checkC09(p, l) })
 	}
+	// "without abnormal termination": the panic-site rules of C07 (unchecked type assertion, index, nil map, division,
+	// shift, nil dereference …) for every function of the front end
+	l.AsOnlyWhere(map[string]string{"C07/P": "C08/S2-no-crash/P"}, func(o *Obligation) bool {
+		for _, d := range []string{"lexer/", "parser/", "token/", "ast/"} {
+			if strings.HasPrefix(o.Pos, d) {
+				return true
+			}
+		}
+		return false
+	}, func() { checkC07(p, l) })
 	if ok, why := parserCursorLemma(p); ok {
 		l.Discharge("C08/S2-no-crash", "parser#cursor", "", why, true)
 	} else {
@@ -343,6 +353,8 @@ func checkGrammarEquivalence(p *Prog, l *Ledger, pi *parserInfo, rule string) {
 			l.Undecide(rule, key, "", "code side: "+err.Error())
 			continue
 		}
+		// direct right recursion ≡ iteration (both sides brought to the same normal form)
+		cd, gd = ardenNormalize(cd, "N:"+fn), ardenNormalize(gd, "N:"+fn)
 		word, inCode, differ := dfaDiff(cd, gd)
 		if !differ {
 			l.Discharge(rule, key, "", fmt.Sprintf("L(code)=L(grammar) over tokens and anchor nonterminals (code DFA %d states, grammar DFA %d states)", len(cd.acc), len(gd.acc)), true)
